@@ -931,6 +931,19 @@ func nodesAreNotBuiltOnTheTokenBefore(c *core.Ctx) {
 				}
 				return true
 			})
+			// and the statement before must be that very name on its own (the parser keeps the
+			// last statement): in `m.y++` and `1 + y++` the name is the end of a larger expression
+			alone := false
+			ast.Inspect(fd.Body, func(n2 ast.Node) bool {
+				if ta, ok := n2.(*ast.TypeAssertExpr); ok && ta.Pos() < ce.Pos() && ta.Type != nil && exprStr(ta.Type) == "*ast.Ident" {
+					if sel, ok := ast.Unparen(ta.X).(*ast.SelectorExpr); ok && strings.Contains(strings.ToLower(sel.Sel.Name), "statement") {
+						alone = true
+					}
+				}
+				return true
+			})
+			c.Check(alone, qual(pp, fd)+"|"+cal.Name()+"|operand-is-a-statement-of-its-own|"+sprintf("%d", k), p.Pos(ce.Pos()),
+				fd.Name.Name+" takes the token before the operator as the operand"+ife(alone, " after checking that the statement before is that name on its own", " without checking that the name stands on its own: in `m.y++` it is the end of a larger expression, and the variable y is counted up instead (m := {y: 1}; y := 10; m.y++ leaves m alone and makes y 11)"))
 			c.Check(tested, qual(pp, fd)+"|"+cal.Name()+"|on-an-examined-token|"+sprintf("%d", k), p.Pos(ce.Pos()),
 				fd.Name.Name+" builds a node with ast."+cal.Name()+" on the token that came before the current one"+ife(tested, " after looking at its type", " without looking at what kind of token that is: the operand of `++` is then whatever came before it (l[0]++ -> undefined variable \"]\"; x\\n++ -> undefined variable \"\\n\")"))
 			return true
@@ -1053,4 +1066,144 @@ func raisedErrorsAreNotPushedAsValues(c *core.Ctx) {
 		core.Undecidedf("the dispatch loop pushes no result of an object method")
 	}
 	c.Stat("pushed_method_results", n)
+}
+
+// ---------------------------------------------------------------------------
+// varDeclaresInBothForms: `var x = e` declares x, and the compiler declares for
+// that node without asking.  The node for several names says whether it
+// declares through a flag, because it is shared with plain assignment
+// (a, b = e); the parser function that builds the one-name form of var also
+// builds the several-names form, and passes the flag as true there.  With
+// false, `var a, b = [1, 2]` is compiled as an assignment to names that do not
+// exist ("undefined variable b").
+func varDeclaresInBothForms(c *core.Ctx) {
+	p := c.P
+	pp := p.Pkg("parser")
+	info := pp.TypesInfo
+	n := 0
+	funcBodies(pp, func(fn *types.Func, fd *ast.FuncDecl) {
+		var single, multi []*ast.CallExpr
+		ast.Inspect(fd.Body, func(nd ast.Node) bool {
+			if ce, ok := nd.(*ast.CallExpr); ok {
+				if cal := calleeOf(info, ce); cal != nil && cal.Pkg() != nil && core.RelPkg(cal.Pkg()) == "ast" {
+					switch cal.Name() {
+					case "NewVar":
+						single = append(single, ce)
+					case "NewMultiVar":
+						multi = append(multi, ce)
+					}
+				}
+			}
+			return true
+		})
+		if len(single) == 0 || len(multi) == 0 {
+			return
+		}
+		for i, ce := range multi {
+			n++
+			ok := false
+			if len(ce.Args) > 0 {
+				if id, isId := ast.Unparen(ce.Args[len(ce.Args)-1]).(*ast.Ident); isId && id.Name == "true" {
+					ok = true
+				}
+			}
+			c.Check(ok, qual(pp, fd)+"|NewMultiVar|declares|"+sprintf("%d", i+1), p.Pos(ce.Pos()),
+				fd.Name.Name+" builds the one-name form of a var statement, which declares, and the several-names form"+ife(ok, " with the declaring flag set", " with the declaring flag not set to true: `var a, b = [1, 2]` is then compiled as an assignment to a and b, which do not exist"))
+		}
+	})
+	if n == 0 {
+		core.Undecidedf("no parser function builds both ast.NewVar and ast.NewMultiVar")
+	}
+	c.Stat("var_multi_sites", n)
+}
+
+// ---------------------------------------------------------------------------
+// separatorsAreRequired: where the parser walks a list item by item and takes
+// a comma when it finds one (`if the current token is a comma { advance }`
+// inside the loop), finding none is only right at the end of the list: the
+// branch has an else that reports an error unless the closer follows.  With
+// the comma merely optional, `func(a b) {}` is a function of two parameters
+// and a misplaced token goes unnoticed.
+func separatorsAreRequired(c *core.Ctx) {
+	p := c.P
+	pp := p.Pkg("parser")
+	isCurComma := func(e ast.Expr) bool {
+		ce, ok := ast.Unparen(e).(*ast.CallExpr)
+		if !ok || len(ce.Args) != 1 {
+			return false
+		}
+		sel, ok := ce.Fun.(*ast.SelectorExpr)
+		return ok && sel.Sel.Name == "curTokenIs" && exprStr(ce.Args[0]) == "token.COMMA"
+	}
+	n := 0
+	funcBodies(pp, func(fn *types.Func, fd *ast.FuncDecl) {
+		k := 0
+		var inLoop func(nd ast.Node, loop bool)
+		inLoop = func(nd ast.Node, loop bool) {
+			ast.Inspect(nd, func(x ast.Node) bool {
+				switch s := x.(type) {
+				case *ast.ForStmt:
+					if s != nd {
+						inLoop(s.Body, true)
+						return false
+					}
+				case *ast.IfStmt:
+					if loop && isCurComma(s.Cond) {
+						n++
+						k++
+						reports := false
+						if s.Else != nil {
+							ast.Inspect(s.Else, func(y ast.Node) bool {
+								if ce, ok := y.(*ast.CallExpr); ok {
+									if sel, ok := ce.Fun.(*ast.SelectorExpr); ok && strings.HasPrefix(sel.Sel.Name, "set") && strings.HasSuffix(sel.Sel.Name, "Error") {
+										reports = true
+									}
+								}
+								return true
+							})
+						}
+						// the test for the closer comes after line breaks have been stepped over: the
+						// statement in front of the branch is a newline step (a line may be broken
+						// before the closing parenthesis)
+						if reports {
+							stepped := false
+							ast.Inspect(fd.Body, func(z ast.Node) bool {
+								blk, ok := z.(*ast.BlockStmt)
+								if !ok {
+									return true
+								}
+								for i, st := range blk.List {
+									if st == ast.Stmt(s) && i > 0 {
+										prev := blk.List[i-1]
+										ast.Inspect(prev, func(w ast.Node) bool {
+											if ce, ok := w.(*ast.CallExpr); ok {
+												if sel, ok := ce.Fun.(*ast.SelectorExpr); ok && strings.Contains(strings.ToLower(sel.Sel.Name), "newline") {
+													stepped = true
+												}
+											}
+											if fs, ok := w.(*ast.ForStmt); ok && fs.Cond != nil && strings.Contains(exprStr(fs.Cond), "token.NEWLINE") {
+												stepped = true
+											}
+											return true
+										})
+									}
+								}
+								return true
+							})
+							c.Check(stepped, qual(pp, fd)+"|closer-tested-after-the-newlines|"+sprintf("%d", k), p.Pos(s.Pos()),
+								fd.Name.Name+" reports an error when neither a comma nor the closer follows an item"+ife(stepped, ", after stepping over line breaks", ", but looks before it has stepped over line breaks: a line broken before the closing parenthesis is a parse error (func f(a\n) {})"))
+						}
+						c.Check(reports, qual(pp, fd)+"|comma-or-closer|"+sprintf("%d", k), p.Pos(s.Pos()),
+							fd.Name.Name+" takes a comma between the items of a list when there is one"+ife(reports, " and reports an error when there is neither a comma nor the end of the list", " and goes on to the next item when there is none: two items written without a comma between them are accepted (func(a b) {} has two parameters)"))
+					}
+				}
+				return true
+			})
+		}
+		inLoop(fd.Body, false)
+	})
+	if n == 0 {
+		c.Pass("parser|no-optional-comma-in-a-loop", "", "no loop of the parser takes a comma only when it finds one")
+	}
+	c.Stat("optional_comma_sites", n)
 }
